@@ -202,6 +202,6 @@ pub fn toks_json(ts: &[Tok]) -> J {
 pub fn hdr_json(h: Option<(u16, u16, u32)>) -> J {
     match h {
         Some((v, c, i)) => json!({"ver": v, "code": c, "id": id_json(i)}),
-        None => J::Null,
+        None => json!({"ver": -1, "code": -1, "id": [0, 0]}),
     }
 }
